@@ -306,6 +306,12 @@ class RegularPolygonPixelRegion(PolygonPixelRegion):
             if value < 3:
                 raise ValueError('nvertices must be >= 3')
         super().__setattr__(name, value)
+        # the vertices (and the derived quantities) follow the defining
+        # parameters when one of them is changed after construction
+        if name in self._params and 'vertices' in self.__dict__:
+            self._vertices = self._calc_vertices()
+            self.vertices = self._vertices
+            self._set_derived()
 
     def __init__(self, center, nvertices, radius, angle=0. * u.deg,
                  meta=None, visual=None):
@@ -319,6 +325,9 @@ class RegularPolygonPixelRegion(PolygonPixelRegion):
 
         super().__init__(self._calc_vertices(), meta=meta, visual=visual)
 
+        self._set_derived()
+
+    def _set_derived(self):
         self.side_length = 2. * self.radius * np.sin(np.pi / self.nvertices)
         self.inradius = self.radius * np.cos(np.pi / self.nvertices)
         self.perimeter = self.side_length * self.nvertices
